@@ -302,7 +302,14 @@ def samelang(F, rep):
                   for b in blocks for s in va.stmts(b))
         rec = any(va.term(b)["t"] == "call" and (callee_name(va.term(b)) or "").endswith("validate_const_expr_kind")
                   for b in blocks)
-        return not oks and not rec
+        # a call whose result is itself a Result (try_for_each over the elements, a helper validating the children)
+        # can succeed: the arm is not an unconditional refusal
+        delegated = any(va.term(b)["t"] == "call" and not va.term(b)["d"]["p"] and
+                        va.local_ty(va.term(b)["d"]["l"]).startswith("core::result::Result<")
+                        for b in blocks)
+        errs = any(s["s"] == "assign" and s["rv"]["r"] == "agg" and s["rv"].get("variant") == "Err"
+                   for b in blocks for s in va.stmts(b))
+        return errs and not oks and not rec and not delegated
 
     n = 0
     for v in [x["name"] for x in F.adts[AST + "Expr"]["variants"]]:
@@ -374,7 +381,9 @@ def constfn(F, R, rep):
                                                                   binop_allowed})
     if not binop_allowed:
         return
-    helpers = sorted({"::".join(segs) for segs, ln in quote_paths(plan) if segs[0] == "incan_stdlib"})
+    from engines import same_file_family
+    helpers = sorted({"::".join(segs) for q in same_file_family(F, plan) for segs, ln in quote_paths(F.fns[q])
+                      if segs[0] == "incan_stdlib"})
     rep.floor("CONSTFN", "runtime helpers determine_binop_plan can select", len(helpers), 10)
     for h in helpers:
         item = R.items.get(h) or F.items.get(h)
